@@ -3,7 +3,7 @@
    The model (ExDefs.v) mirrors ex.c / lbuf.c / reg.c; the regex engine, the shell filter, the file
    system and the file name are arbitrary (universally quantified) parameters of every theorem. *)
 From Coq Require Import List NArith ZArith Bool.
-From NV Require Import Bytes ExDefs ExSpec ExProps ExRefine ExAddr.
+From NV Require Import Bytes ExDefs ExSpec ExProps ExRefine ExAddr ExRegDefs ExRegProps.
 Import ListNotations.
 Local Open Scope Z_scope.
 
@@ -213,3 +213,77 @@ Example C06_tokens :
   tok_addr [39;97;44;36]%N = ATerms [(mkterm (BMark 97) [], Some false); (mkterm BLast [], None)] /\
   tok_addr [37]%N = APercent /\ tok_addr [] = AEmpty.
 Proof. vm_compute. repeat split. Qed.
+
+(* ---------------------------------------------------------------------------------------------------------------- *)
+(* The numbered registers 1..9 (reg.c reg_put; ExDefs.reg_put mirrors its loop `for (i = 8; i > 0; i--)`, one copy after
+   the other).  ExRegDefs.v says what the loop must amount to without a loop: a store into the unnamed register or a letter
+   ([pushes]) makes register 1 the new text and register i+1 what register i held BEFORE the store (an unset register hands
+   nothing on); every register that is neither a digit nor the addressed one keeps its text; the addressed lettered register
+   gets the text (appended for a capital).  y and d reach reg_put with the addressed lines (yank_refines, delete_regs in
+   C06_refines_spec_per_command), rs with its text block (rs_only_regs below: nothing but the registers changes). *)
+Theorem C06_numbered_push : forall r c v, pushes c = true ->
+  (forall i, (1 <= i <= 9)%nat -> nreg (reg_put r c v) i = num_after_push (nreg r) v i) /\
+  (forall k, k <> tolower c -> is_numkey k = false -> reg_getraw (reg_put r c v) k = reg_getraw r k) /\
+  reg_getraw (reg_put r c v) (tolower c) =
+    Some ((if isupper c then match reg_getraw r (tolower c) with Some p => p | None => [] end else []) ++ v).
+Proof. exact (fun r c v P => conj (put_num_push r c v P) (conj (fun k H K => put_other r c v k H (fun _ => K)) (put_named r c v))). Qed.
+Print Assumptions C06_numbered_push.
+
+(* a store that is not pushed (register ':' after every command line, a digit, a '\'-escaped name) changes its own register only *)
+Theorem C06_unpushed_store : forall r c v k, pushes c = false -> k <> tolower c ->
+  reg_getraw (reg_put r c v) k = reg_getraw r k.
+Proof. exact (fun r c v k P H => put_other r c v k H (fun Q => False_ind _ (eq_true_false_abs _ Q P))). Qed.
+Print Assumptions C06_unpushed_store.
+
+(* histories: after ANY sequence of stores that are pushed or go to a non-digit name, from a register file showing the
+   history h, the registers 1..9 show the texts of the pushed stores, newest first, followed by h: register i holds the
+   i-th newest line-wise store, registers beyond the number of stores are unset, the tenth newest is forgotten; and a
+   register that is no digit and is not addressed by any of the stores keeps its text *)
+Theorem C06_numbered_history : forall l r h, shows r h -> forallb plain_store l = true ->
+  shows (reg_stores r l) (pushed l ++ h) /\
+  (forall k, is_numkey k = false -> (forall cv, In cv l -> tolower (fst cv) <> k) -> reg_getraw (reg_stores r l) k = reg_getraw r k).
+Proof. exact (fun l r h S F => conj (stores_show l r h S F) (fun k K H => stores_named l r k K H)). Qed.
+Print Assumptions C06_numbered_history.
+
+(* the same in the terms of the property: k stores with the texts t1..tk (oldest first) into unnamed/lettered registers,
+   numbered registers unset before: register i holds t_(k+1-i) for 1 <= i <= min(k,9) and is unset for k < i <= 9 *)
+Theorem C06_numbered_kth_newest : forall r names texts,
+  shows r [] -> length names = length texts -> Forall (fun c => pushes c = true) names ->
+  forall i, (1 <= i <= 9)%nat ->
+  nreg (reg_stores r (combine names texts)) i =
+  if (i <=? length texts)%nat then Some (nth (length texts - i) texts []) else None.
+Proof. exact numbered_history. Qed.
+Print Assumptions C06_numbered_kth_newest.
+
+(* put and @ see a numbered register only through reg_get: with the history h they get its i-th newest text; while fewer
+   than i stores happened both are rejected and the WHOLE state (buffer, current line, marks, registers, output) is unchanged *)
+Theorem C06_numbered_unset_rejected : forall rvalid rfind exec loc s h i rest,
+  shows (regs s) h -> (1 <= i <= 9)%nat ->
+  reg_get s (REG (numkey i :: rest)) = nth_error h (i - 1) /\
+  ((length h < i)%nat -> ec_put rvalid rfind loc (numkey i :: rest) s = (s, 1) /\
+                         ec_at rvalid rfind exec loc (numkey i :: rest) s = (s, 1)).
+Proof. exact (fun rvalid rfind exec loc s h i rest S Hi =>
+  conj (proj2 (numbered_get s h i rest S Hi))
+       (fun L => conj (put_unset_rejected rvalid rfind loc s h i rest S Hi L) (at_unset_rejected rvalid rfind exec loc s h i rest S Hi L))). Qed.
+Print Assumptions C06_numbered_unset_rejected.
+
+(* rs: the text block goes through reg_put; buffer, current line, output, pattern and pending input are untouched *)
+Theorem C06_rs_only_registers : forall arg t s, let s' := fst (ec_rs arg (Some t) s) in
+  regs s' = reg_put (regs s) (REG arg) t /\ lb s' = lb s /\ xrow s' = xrow s /\ out s' = out s /\ kwd s' = kwd s /\ inp s' = inp s.
+Proof. exact rs_only_regs. Qed.
+Print Assumptions C06_rs_only_registers.
+
+(* not vacuous, and sharp: "one" into the unnamed register, "two" into a, "three" into the unnamed register: register 3 holds
+   "one", register 4 is unset, `pu 4` is rejected; the upward-copying loop (reg_put_up: i = 1 .. 8) puts "two" into register 3
+   already and fills register 3 after two stores *)
+Example C06_numbered_nonvacuous :
+  let one := [111; 110; 101; 10]%N in let two := [116; 119; 111; 10]%N in let three := [116; 104; 114; 101; 101; 10]%N in
+  let r := reg_stores [] [(0, one); (97, two); (0, three)]%N in
+  shows [] [] /\ shows r [three; two; one] /\ nreg r 3 = Some one /\ nreg r 4 = None /\
+  nreg (reg_put_up (reg_put_up (reg_put_up [] 0 one) 97 two) 0 three) 3 = Some two /\
+  nreg (reg_put_up (reg_put_up [] 0 one) 97 two) 3 = Some one /\ nreg (reg_put (reg_put [] 0 one) 97 two) 3 = None.
+Proof.
+  cbv zeta. split; [intros i _; destruct i as [|[|i]]; reflexivity|].
+  split; [apply (stores_show [(0, _); (97, _); (0, _)]%N [] []); [intros i _; destruct i as [|[|i]]; reflexivity | reflexivity]|].
+  vm_compute. repeat split.
+Qed.
